@@ -236,13 +236,24 @@ def run_case(case, rec):
         if not close(float(td), sum(float(v) for v in tt.values()), 1e-12, 1e-14):
             rec.violation("total-not-sum/%s/default-weights" % sigk, "total %r != sum of terms with default weights" % float(td))
     # ---------------------------------------------------------------- metamorphic relations
-    a = 2.75
-    loss_a = eqx.tree_at(lambda l: l.loss_weights.dyn_loss, loss, (jnp.asarray(wdyn) * a) if case["wvec"] else wdyn * a)
-    _, terms_a = guard.call(ev, loss_a, params, batch)
-    rec.count("evaluations_checked")
-    if not close(float(terms_a["dyn_loss"]), a * got, 1e-10, 1e-12):
-        rec.violation("dyn-term/%s/not-linear-in-weight" % sigk, "L(%g w) = %r but %g L(w) = %r"
-                      % (a, float(terms_a["dyn_loss"]), a, a * got))
+    # linear in the weight: any factor, negative ones included (the weight is a coefficient, not a scale of the residual)
+    for a in (2.75, -1.5 if case["seed"] % 2 else 0.0):
+        loss_a = eqx.tree_at(lambda l: l.loss_weights.dyn_loss, loss, (jnp.asarray(wdyn) * a) if case["wvec"] else wdyn * a)
+        _, terms_a = guard.call(ev, loss_a, params, batch)
+        rec.count("evaluations_checked")
+        rec.count("linearity_factor_%s" % ("negative" if a < 0 else ("zero" if a == 0 else "positive")))
+        if not close(float(terms_a["dyn_loss"]), a * got, 1e-10, 1e-12):
+            rec.violation("dyn-term/%s/not-linear-in-weight%s" % (sigk, "/negative-factor" if a < 0 else ("/zero" if a == 0 else "")),
+                          "L(%g w) = %r but %g L(w) = %r" % (a, float(terms_a["dyn_loss"]), a, a * got))
+    if case["wvec"] and case["ncomp"] >= 2 and case["seed"] % 3 == 0:
+        # mixed-sign per-component weights
+        wm = np.asarray(wdyn) * np.array([(-1.0) ** c for c in range(case["ncomp"])])
+        lm = eqx.tree_at(lambda l: l.loss_weights.dyn_loss, loss, jnp.asarray(wm))
+        gm = float(guard.call(ev, lm, params, batch)[1]["dyn_loss"])
+        rec.count("evaluations_checked")
+        if not close(gm, dyn_expected(pts, wm), 1e-8, 1e-10):
+            rec.violation("dyn-term/%s/per-component-weight/mixed-signs" % sigk,
+                          "dynamic term %r with per-component weights %s, expected %r" % (gm, wm, dyn_expected(pts, wm)))
     if case["wvec"] and case["ncomp"] >= 2:
         # one component weight at a time: L(w) = sum_c L(w_c e_c)
         s = 0.0
